@@ -3,8 +3,9 @@
 # and prints one line per variant. Used while developing; the thorough tier does the same per property.
 HERE="$(cd "$(dirname "$0")/.." && pwd)"
 PROPS="$*"
-for f in "$HERE"/variants/break/*.patch "$HERE"/variants/keep/*.patch; do
-  b="$(basename "$f" .patch)"; p="${b%%-*}"; kind="$(basename "$(dirname "$f")")"
+for f in "$HERE"/variants/break/*.patch "$HERE"/variants/keep/*.patch "$HERE"/variants/keep-ext/*.patch; do
+  [ -f "$f" ] || continue
+  b="$(basename "$f" .patch)"; p="${b%%-*}"; kind="$(basename "$(dirname "$f")")"; [ "$kind" = keep-ext ] && kind=keep
   if [ -n "$PROPS" ] && [ "$p" != "ALL" ]; then case " $PROPS " in *" $p "*) ;; *) continue;; esac; fi
   exp="$(grep '^# expect:' "$f" | sed 's/# expect: *//' | tr '\n' ' ')"
   props="$p"
